@@ -1,5 +1,6 @@
 import StimModel.Driver.Wire
 import StimModel.Model.TSim
+import StimModel.Model.PauliProp
 /-! Line-protocol dispatcher: one request line in, one answer line out. -/
 namespace Stim.Driver
 open Stim Stim.Wire
@@ -55,10 +56,37 @@ def gateActU (toks : List String) : String :=
   let r := gateAct toks
   String.ofList (r.toList.drop 1)
 
+def optPS : Option PS → String
+  | some s => s.str
+  | none => "refused"
+
+def pauliCmd (toks : List String) : String :=
+  match toks with
+  | ["mul", a, b] =>
+    match PS.ofStr a, PS.ofStr b with
+    | some x, some y => (x.mul y).str
+    | _, _ => "bad-request"
+  | ["commutes", a, b] =>
+    match PS.ofStr a, PS.ofStr b with
+    | some x, some y => if x.commutes y then "1" else "0"
+    | _, _ => "bad-request"
+  | ["weight", a] => match PS.ofStr a with | some x => toString x.weight | none => "bad-request"
+  | ["text", t] => match flexParse t with | some x => x.flexStr | none => "invalid"
+  | "after" :: rest =>
+    match parseCircuit rest with
+    | some (c, [p]) => match PS.ofStr p with | some x => optPS (propCircuit .fwd c x) | none => "bad-request"
+    | _ => "bad-request"
+  | "before" :: rest =>
+    match parseCircuit rest with
+    | some (c, [p]) => match PS.ofStr p with | some x => optPS (propCircuit .bwd c x) | none => "bad-request"
+    | _ => "bad-request"
+  | _ => "bad-request"
+
 def answer (toks : List String) : String :=
   match toks with
   | "tsim" :: "check" :: rest => tsimCheck rest
   | "tsim" :: "ref" :: rest => tsimRef rest
+  | "pauli" :: rest => pauliCmd rest
   | "gate" :: "act" :: rest => gateAct rest
   | "gate" :: "actu" :: rest => gateActU rest
   | "gate" :: "mismatch" :: [g] =>
